@@ -16,6 +16,7 @@ import (
 	"fmt"
 	"hash/fnv"
 	mrand "math/rand"
+	"runtime"
 	"runtime/debug"
 	"strings"
 	"testing"
@@ -379,6 +380,14 @@ var c09Ops = []string{
 func c09Tamper(t pgFataler, in *c09Input, op string, a, b *pgWorld, ch pgChooser, rnd *mrand.Rand) (applied bool) {
 	defer func() {
 		if r := recover(); r != nil {
+			// Only the harness's own slips (runtime errors, math/rand argument panics) are
+			// converted; rapid signals "fuzz input exhausted" and Fatalf through panics of
+			// its own (unexported) types, which must propagate untouched.
+			_, isRuntime := r.(runtime.Error)
+			_, isString := r.(string)
+			if !isRuntime && !isString {
+				panic(r)
+			}
 			t.Fatalf("VERIF-HARNESS-BUG: tampering %q panicked: %v\n%s", op, r, debug.Stack())
 		}
 	}()
